@@ -74,6 +74,15 @@ func judgeAll(c *core.Ctx, swagger string, groups []modelrig.Group, pass string)
 				map[string]string{"spec.json": string(jx.Marshal(r.Unit.Spec)), "document.json": jx.Compact(r.Case.Variant.Doc), "observed.txt": r.Ans.UnmarshalErr})
 			continue
 		}
+		// a document the schema accepts outright (no documented exception involved, canonical
+		// valid value) that the generated model cannot decode is lost before the round trip starts
+		if j.RefValid && j.Unspecified == "" && len(j.Allowed) == 1 && r.Ans.UnmarshalErr != "" && r.Ans.Panic == "" && !r.Group.Placed.Atom.NoValidate && !r.Group.Placed.Atom.Tuple && strings.HasPrefix(r.Case.Variant.Label, "valid") {
+			bad[who] = true
+			c.Eval(who + "/valid-not-decoded")
+			c.Violation(fmt.Sprintf("C05/"+pass+"%s/valid-document-not-decoded", who), fmt.Sprintf("a valid %s document is refused by UnmarshalJSON: %s (document %s)", r.Case.Def, r.Ans.UnmarshalErr, jx.Compact(r.Case.Variant.Doc)),
+				map[string]string{"spec.json": string(jx.Marshal(r.Unit.Spec)), "document.json": jx.Compact(r.Case.Variant.Doc), "observed.txt": r.Ans.UnmarshalErr})
+			continue
+		}
 		// only documents valid for the schema, and decoded by the generated model
 		if !(j.RefValid || r.Group.Placed.Atom.NoValidate || r.Group.Placed.Atom.Tuple) || j.Unspecified != "" || r.Ans.UnmarshalErr != "" || r.Ans.Panic != "" {
 			skippedInvalid++
